@@ -11,11 +11,30 @@
 //   a_i < b_i  and  b_i <= a_(i+1).   (Lists produced by open_at alone have b_i < a_(i+1); unions may touch.)
 #include <asmjit/core.h>
 #include <asmjit/core/radefs_p.h>
-#include "arena_stub.h"
 #include "verif.h"
 using namespace asmjit;
 
 template<class T> union Raw { T v; Raw() noexcept {} ~Raw() noexcept {} };
+
+// The Arena is environment (C18 checks it). One request per run is served from a typed pool of 32 spans (a malloc'ed byte block
+// costs the solver 7 GB here instead of 1), reporting the size the real arena would report; it may fail.
+static RALiveSpan pool[32];   // 256 bytes: what ArenaVector's growth rule asks for 5 or 6 spans (64 bytes up to 4, 32 up to 2... see arenavector.cpp)
+namespace arena_stub { static bool may_fail = false; static int n_allocs = 0, n_failed = 0; }
+ASMJIT_BEGIN_NAMESPACE
+void* Arena::_alloc_reusable(size_t size, Out<size_t> allocated_size) noexcept {
+  arena_stub::n_allocs++;
+  V_ASSERT(arena_stub::n_allocs == 1 && size <= sizeof(pool), "spans env: one request of at most 256 bytes per run");
+  if (arena_stub::may_fail && nondet_bool()) { arena_stub::n_failed++; allocated_size = 0; return nullptr; }
+  size_t slot = 0, asz = 0;
+  if (!_get_reusable_slot_index(size, Out(slot), Out(asz))) asz = size;
+  allocated_size = asz;
+  return pool;
+}
+void Arena::_release_dynamic(void*, size_t) noexcept {}
+ASMJIT_END_NAMESPACE
+static Raw<Arena> g_arena_store;
+static inline Arena& env_arena() { arena_stub::may_fail = false; arena_stub::n_allocs = arena_stub::n_failed = 0; for (unsigned i = 0; i < Arena::kReusableSlotCount; i++) g_arena_store.v._reusable_slots[i] = nullptr; return g_arena_store.v; }
+//   // zero: no block, no pooled chunks; free_reusable() only links the released storage into its slot list
 
 struct Sp { uint32_t a, b; };
 
@@ -56,7 +75,7 @@ static inline bool any_intersection(const Sp (&x)[3], const Sp (&y)[3]) {
 // and release the old storage) - only when more than 2 spans are produced.
 template<unsigned NX, unsigned NY, unsigned DST>
 static void union_case() {
-  Arena arena(1024);
+  Arena& arena = env_arena();
   Sp x[3], y[3];
   make_list<NX>(x, false); make_list<NY>(y, false);
   RALiveSpan xs[3], ys[3], stale[6];
@@ -122,7 +141,7 @@ UNION_HARNESS(3, 3, 0) UNION_HARNESS(3, 3, 1) UNION_HARNESS(3, 3, 2)
 // instructions): the refusal may then be conservative, but an accepted union still means that no two spans share a position.
 template<unsigned NX, unsigned NY>
 static void union_weak_case() {
-  Arena arena(1024);
+  Arena& arena = env_arena();
   Sp x[3], y[3];
   make_list<NX>(x, true); make_list<NY>(y, true);
   RALiveSpan xs[3], ys[3];
@@ -183,7 +202,7 @@ HARNESS h_spans_intersects() {
 // the last span; close_at(end) with end above the start of the last span.
 template<unsigned N, bool SPARE>
 static void open_case() {
-  Arena arena(1024);
+  Arena& arena = env_arena();
   Sp x[3];
   make_list<N>(x, false);
   RALiveSpan st[4];
